@@ -727,7 +727,7 @@ func init() {
 		engine.Register(&engine.Check{
 			ID: "C06", Level: "exploration",
 			Rule:        "all UBJSON values of the grammar up to N nodes (plain, counted, typed containers over up to 15 element types incl. containers of containers, no-ops in plain arrays; a no-op inserted at every byte position of every 3-node document), every scalar marker with boundary payloads, every length marker for strings/H, typed containers followed by siblings, nesting to 40; parsed by the real parser and compared with the reference decoder refubj; distinct by bytes, non-trivial = more than one byte",
-			Assumptions: []string{"refubj implements UBJSON draft 12; a no-op is skipped (and not counted) wherever a value may start - top level, array elements, object member values, plain and counted containers - and is malformed inside a header; where a field name is expected the draft is ambiguous and neither verdict is judged", "char is mapped to the integer of its byte, H to its string (library data model)"},
+			Assumptions: []string{"refubj implements UBJSON draft 12; a no-op is skipped (and not counted) wherever a value may start - top level, array elements, object member values, plain and counted containers - and is malformed inside a header; where a field name is expected the draft is ambiguous and neither verdict is judged", "char (0..127 only, as the draft says) is mapped to the integer of its byte, H to its string (library data model)"},
 			Families:    func(tier string) []engine.Family { return ubjDocFamilies(conformScope(tier), conformBody) },
 			Require:     []string{"values_compared"},
 		})
